@@ -1,11 +1,13 @@
 import DelbModel.Model.Serialize
 import DelbModel.Lemmas.Roundtrip
+import DelbModel.Props.C13
 /-!
 # C02 — Serialize then parse gives back the same document model
 
 Property theorems only; helper lemmas are in `DelbModel/Lemmas/Roundtrip.lean`.
-The prefix map is assumed to satisfy `PMapOk` (that `_collect_prefixes` always produces
-such a map is C13, `c13_collect_ok`).
+`c02_roundtrip` assumes a prefix map with the `PMapOk` guarantees; that `_collect_prefixes`
+always produces such a map is C13 (`c13_collect_ok`), and `c02_serialize_roundtrip` composes the
+two.
 -/
 namespace Delb.Ser
 
@@ -55,19 +57,15 @@ set_option linter.unusedVariables false in
     written declarations — into the original tree (adjacent text merged, empty text dropped,
     attributes in written order).
 
-    `hxml` / `hxmlns` are needed in addition to `PMapOk`, which does not exclude that some other
-    namespace is mapped to one of the two reserved prefixes; without them the statement is false:
-    `t = .tag "urn:a" "r" [] []` with `m = [("urn:a", "xml:")]` satisfies `PMapOk [] m t`, is
-    written as `<xml:r/>` (no declaration for a global prefix) and read back in the XML
-    namespace; with `m = [("urn:a", "xmlns:")]` it is written as `<xmlns:r/>`, which cannot be
-    resolved at all (`build` gives `none`). -/
+    Of `PMapOk` this uses `injective`, `shape`, `keysNodup` and `xmlPrefix` / `xmlnsPrefix`: the
+    two reserved prefixes are never declared, so a foreign namespace written as `<xml:r/>` would
+    be read back in the XML namespace and `<xmlns:r/>` could not be resolved at all. -/
 theorem c02_roundtrip (nsmap m : Dict) (hn : NsMapOk nsmap) (t : Node)
     (htag : t.isTag = true) (hs : Serializable t) (hm : PMapOk nsmap m t)
-    (hxml : ∀ ns, dget m ns = some "xml:" → ns = Gen.xmlNamespace)
-    (hxmlns : ∀ ns, dget m ns = some "xmlns:" → ns = Gen.xmlnsNamespace)
     (toks : List Tok)
     (h : emitRoot m t = .ok toks) : build toks = some (normalize t) :=
-  build_emitRoot ⟨hm.injective, hm.shape, hm.keysNodup, hxml, hxmlns⟩ Serializable SerializableList
+  build_emitRoot ⟨hm.injective, hm.shape, hm.keysNodup, hm.xmlPrefix, hm.xmlnsPrefix⟩
+    Serializable SerializableList
     (fun _ _ _ _ h => by
       simp only [Serializable] at h
       exact ⟨h.1, h.2.1, h.2.2.1, h.2.2.2.2⟩)
@@ -77,6 +75,18 @@ theorem c02_roundtrip (nsmap m : Dict) (hn : NsMapOk nsmap) (t : Node)
 theorem c02_emit_total (nsmap m : Dict) (t : Node) (hm : PMapOk nsmap m t) :
     ∃ toks, emitRoot m t = .ok toks :=
   emitRoot_total t hm.total
+
+/-- serialize, then read back: for every tree the serializer can write, every accepted caller
+    mapping and every iteration order of the namespace sets, what `TagNode.serialize()` emits is
+    rebuilt into the original tree (adjacent text merged, empty text dropped) -/
+theorem c02_serialize_roundtrip (nsmap : Dict) (hn : NsMapOk nsmap) (root : Node)
+    (htag : root.isTag = true) (hs : Serializable root)
+    (orders : List (List String)) (ho : ordersValid root orders = true) (m : Dict)
+    (h : collect nsmap root orders = .ok m) :
+    ∃ toks, emitRoot m root = .ok toks ∧ build toks = some (normalize root) := by
+  have hm := c13_collect_ok nsmap hn root orders ho m h
+  obtain ⟨toks, ht⟩ := c02_emit_total nsmap m root hm
+  exact ⟨toks, ht, c02_roundtrip nsmap m hn root htag hs hm toks ht⟩
 
 /-- non-vacuity -/
 example : build [.stag "r".toList [("xmlns".toList, "urn:a".toList), ("xmlns:ns0".toList, "urn:b".toList),
